@@ -56,6 +56,23 @@ def rand_index(sr, rng, sym, dual=None, maxc=3, maxd=3, mind=1, p_single=0.12, m
     return sr.BlockIndex(cm, dual=(rng.random() < 0.5) if dual is None else dual)
 
 
+def typed_number(rng, v, log=None):
+    """The number v as one of the objects users hold coefficients in: float, int, numpy
+    scalar, or a 0-d numpy array (mutable). `log` receives (object, float value)."""
+    r = rng.random()
+    if r < 0.6:
+        o = float(v)
+    elif r < 0.7 and float(v).is_integer():
+        o = int(v)
+    elif r < 0.85:
+        o = np.float64(v)
+    else:
+        o = np.array(float(v))
+    if log is not None:
+        log.append((o, float(v)))
+    return o
+
+
 def identity_history(sr, rng, x, nsteps=None):
     """The same tensor (same axes in the same order, same values) after a short history of
     public operations that cancel: the object's internal state - block order, pending signs,
